@@ -8,7 +8,7 @@ PID = "C01"
 LEVEL = "fault_enumeration"
 RULE = ("Each case draws a doer forest (<= 8 nodes quick / 14 thorough, depth <= 3, all six doer kinds, "
         "DoDoers with any tock, optional always) with a per-doer script of yields and faults "
-        "(raise in enter / at recur k, return truthy/falsy/None at enter / recur k, KeyboardInterrupt inside a recur, "
+        "(raise in enter / at recur k, KeyboardInterrupt or SystemExit in enter, return truthy/falsy/None at enter / recur k, KeyboardInterrupt inside a recur, "
         "KeyboardInterrupt out of sleep in real mode, runtime extend incl. already-present and failing enter, "
         "runtime remove of self / siblings / completed / strangers / DoDoers, limit expiry incl. non-multiples of tock) "
         "and runs it under hio's real Doist. Non-trivial: >= 2 doers started and >= 1 fault fired while another doer "
@@ -28,7 +28,7 @@ TIERS = dict(quick=dict(cases=24000, wall=40.0), thorough=dict(cases=1500000, wa
 def feat_for(tier):
     f = sched.default_feat()
     f["acts"] = dict(cont=8, ret=2, raise_=1, kbint=1, extend=2, remove=2, forever=1)
-    f["enter"] = dict(ok=14, raise_=1, ret=1, kbint=1)
+    f["enter"] = dict(ok=14, raise_=1, ret=1, kbint=1, sysexit=1)
     f["real"] = True
     f["kbint_sleep"] = True
     if tier == "thorough":
